@@ -1,6 +1,8 @@
 package pebbles
 
 import (
+	"encoding/json"
+
 	"github.com/buildbuildio/pebbles/planner"
 )
 
@@ -35,8 +37,13 @@ func vMixedPool() []vOp {
 		{q: `{ __schema { queryType { name } } me { name phone } }`},
 		{q: `mutation { __typename saveHuman(name: "x") { name } }`},
 		{q: `{ me { name } }`},
+		// what GraphiQL sends: the sub-selection of an introspection field goes through a named fragment
+		{q: `{ __schema { queryType { ...T } } me { name } } fragment T on __Type { name kind }`},
+		{q: `{ __type(name: "Human") { ...T } __type(name: "Human") { kind } } fragment T on __Type { name }`},
 	}
 }
+
+var vIntroSeen = map[string]string{}
 
 func VerifCacheGateway() {
 	vK = 1
@@ -67,6 +74,16 @@ func VerifCacheGateway() {
 			for k := range exp {
 				if len(k) > 2 && k[:2] == "__" && k != "__typename" {
 					verifAssert(data[k] != nil, "introspection fields next to ordinary fields are answered: "+k)
+					// what they say is C16's subject; that a repeated request is answered like the first is this one's
+					if b, err := json.Marshal(data[k]); err == nil {
+						key := op.q + "|" + op.opName + "|" + k
+						if first, seen := vIntroSeen[key]; seen {
+							verifAssert(first == string(b), "an introspection field is answered the same way every time: "+k)
+						} else {
+							vIntroSeen[key] = string(b)
+						}
+						verifAssert(string(b) != "{}", "an introspection field with a selection is not answered with an empty object: "+k)
+					}
 					delete(exp, k)
 					delete(data, k)
 				}
